@@ -444,6 +444,11 @@ pub fn run_universes(run: &mut Run, sel: &Sel, disagree_idx: usize, check: PosCh
             });
         });
     }
+    if sel.aligned {
+        run.par_shards("EP2 (an en-passant capture beside a second own pawn with an enemy man behind it)", 2, |ctx, sh| {
+            uni::ep2(sh as u8, &mut |p| visit(ctx, p, disagree_idx, check));
+        });
+    }
     if sel.hemmed {
         run.par_shards("HEMMED (an enemy slider whose neighbours in its move directions are all its own men, own king next to them)", uni::HEMMED_SHARDS, |ctx, sh| {
             uni::hemmed(sh, &mut |p| visit(ctx, p, disagree_idx, check));
@@ -466,6 +471,11 @@ pub fn run_universes(run: &mut Run, sel: &Sel, disagree_idx: usize, check: PosCh
                     visit(ctx, &p, disagree_idx, check);
                 }
             });
+        });
+    }
+    if sel.boxk.is_some() {
+        run.par_shards("STUCK (stalemated cornered king, blocked pawn pairs on every subset of six files, one further own man anywhere: every legal move belongs to that man)", uni::STUCK_SHARDS, |ctx, sh| {
+            uni::stuck(sh, &mut |p| visit(ctx, p, disagree_idx, check));
         });
     }
     if sel.counts {
